@@ -16,4 +16,11 @@ TABLE = [
     ("N_DENY_FLAG_WRITES", "ntp-proto/src/source.rs", r"self\.have_deny_rstr_response = ", "count"),
     ("N_COOKIE_STORE_CALLS", "ntp-proto/src/source.rs", r"\.cookies\.store\(", "count"),
     ("N_COOKIE_GET_CALLS", "ntp-proto/src/source.rs", r"\.cookies\.get\(\)", "count"),
+    # NTPv5 Bloom filter (C34, C33)
+    ("BLOOM_BYTES", "ntp-proto/src/packet/v5/server_reference_id.rs", r"pub const BYTES: usize = (\d+);", "int"),
+    ("U12_MAX", "ntp-proto/src/packet/v5/server_reference_id.rs", r"pub const MAX: Self = Self\((\d+)\);", "int"),
+    ("SERVER_ID_LEN", "ntp-proto/src/packet/v5/server_reference_id.rs", r"pub struct ServerId\(\[U12; (\d+)\]\);", "int"),
+    ("REQUEST_MAX_END", "ntp-proto/src/packet/v5/extension_fields.rs", r"if payload_len \+ offset > (\d+) \{", "int"),
+    ("REMOTE_FILTER_CHUNK", "ntp-proto/src/source.rs", r"bloom_filter: RemoteBloomFilter::new\((\d+)\)\.expect", "int"),
+    ("N_BLOOM_INDEXING", "ntp-proto/src/packet/v5/server_reference_id.rs", r"self\.0\[idx\]", "count"),
 ]
